@@ -200,6 +200,17 @@ impl Prop for C03 {
                 }
             }
         }
+        // ratios of commensurable units: no dimension left, but a scale (min/hr is 1/60, ft/mi 1/5280);
+        // every ordered pair converts by the ratio of the two scales
+        // (one unit under two prefixes, `m/km`, is refused by the tool and not a C03 matter)
+        let ratios = ["min/hr", "s/hr", "min/s", "ft/mi", "in/ft", "yd/mi", "l/m^3", "Bq*s", "kBq*ms", "J/N/m"];
+        for a in ratios {
+            for b in ratios {
+                if a != b {
+                    comp.push((a.to_string(), b.to_string()));
+                }
+            }
+        }
         comp.sort();
         comp.dedup();
         for (a, b) in comp {
